@@ -229,6 +229,19 @@ class Sem:
 # hand-written, self-contained, compilable programs: constructs whose meaning depends on details the random generator
 # reaches rarely (unnamed bit-fields, ?: grouping, for-init lists, casts as operands, comma expressions in brackets, ...)
 SEMZOO = [
+    # designator chains that mix members and indices in every order
+    "struct P { int a; int b[2]; struct { int c[2]; } d; };\nstruct Q { struct P arr[2]; int m[2][2]; };\nstruct Q q = { .arr[1].b[0] = 3, .m[1][0] = 7, .arr[0].d.c[1] = 2 };\nstruct P p = { .a = 1, .b[1] = 2, .d.c[0] = 4 };\nint g[2][3] = { [1][2] = 9, [0] = { 1 } };\nstruct O { struct P in[3]; } o = { .in[2].b[1] = 5, .in[0].a = 1, .in[1].d.c[0] = 6 };\nint dz(void){ struct Q l = { .m[0][1] = 1, .arr[1].a = q.arr[1].b[0] }; return l.m[0][1] + l.arr[1].a + p.b[1] + g[1][2] + o.in[2].b[1]; }",
+    # empty struct / union bodies (GNU C) next to references to incomplete and complete types
+    "struct E {} e;\nunion EU {} eu;\nstruct F { struct E inner; int x; } f1 = { .x = 2 };\nstruct Fwd;\nstruct Fwd *pf;\nint ez(void){ struct L {} l; return (int)sizeof e + (int)sizeof eu + (int)sizeof l + (int)sizeof(struct F) + f1.x + (pf != 0); }",
+    # callees, subscripted and dereferenced bases that are not simple nodes
+    "int k1(int x){ return x + 1; }\nint k2(int x){ return x * 2; }\nint (*tab[2])(int) = { k1, k2 };\nint (**pt)(int) = tab;\nint cz(int c, int (*fp)(int)){ int (*q)(int) = fp; return (*fp)(1) + (c ? k1 : k2)(c) + (*pt++)(2) + (*tab[1])(3) + (**pt)(4) + (&k1)(5) + (q = k2)(6) + (*(c ? &q : &fp))(7); }",
+    # comma expressions wherever an assignment-expression is expected (both generator configurations)
+    "int m1(int a, int b){ int x; x = (a++, a + 2); x += (b, a); return x; }\nint v2(int a, int b){ return a + b; }\nint m2(int a, int b){ return v2((a, b), 3) + v2(1, (a = 2, b)) + ((a = 1, b = 2), a + b); }\nint m3(int a, int b){ int arr[3] = { (a, b), 2, (b, a) }; return arr[(a, 0)] + (a ? (a, b) : (b, a)); }",
+    # integer constants in every base with every suffix spelling
+    "unsigned long z1 = 1U + 2u + 0xFFUL + 0xffLu + 077u + 0B1UL + 0b11 + 5lu + 6LLU + 7ull;\nlong long z2 = 1LL << 40 | 0B1UL << 33 | 0x1LL << 35;\nint zz(void){ return (int)(z1 + z2) + (int)sizeof(1U) + (int)sizeof(1UL) + (int)sizeof(0b1LL) + (-1 < 0U) + (-1 < 0B0U) + (-1L < 0b0UL); }",
+    # K&R definitions, file-scope static assertions, do bodies without braces, empty initializers
+    "int kr(a, b) long b; int a; { return a + (int)sizeof b; }\nint kr2(c, p, n) char c; int n; double *p; { return c + n + (int)*p; }\n_Static_assert(sizeof(long) >= 4, \"long\");\nint dw(int n){ int s = 0; do n--; while (n > 0); do s++, n++; while (n < 3); return s; }\nstruct Z { int a; int b[2]; } ze = {};\nint za[3] = {};\nint zi(void){ struct Z l = { .b = {} }; int zl[] = { 1, 2 }; return ze.a + za[1] + l.b[1] + (int)sizeof zl + kr(1, 2L); }",
+
     # unnamed bit-fields decide the layout
     "struct S { unsigned a:3; unsigned :5; unsigned b:4; unsigned :0; unsigned c:2; } s = {1, 2, 3};\nint f(void){ return s.b + s.c + (int)sizeof s; }\nstruct T { char c; int :0; char d; int : 7; short e; } t = {1, 2, 3};\nint g(void){ return t.d + t.e; }",
     # conditional operator grouping
